@@ -530,7 +530,7 @@ def cancel_in_sweep_session(kind, hook_sleep, reset_after):
     return obs
 
 
-def receiver_cancelled_session(hook_sleep, reset_after, kind):
+def receiver_cancelled_session(hook_sleep, reset_after, kind, socket_timeout=100.0):
     """A and B are outstanding; A's time-to-live (1 s) runs out; the SMSC answers B 1.3 s after it was written: correlator.get() takes B out
     of the store and then sweeps, which awaits the application's send_error hook for A (`hook_sleep` seconds); `reset_after` seconds into
     the hook the connection is lost and the session is torn down - the receiver is cancelled inside the correlation of B's response."""
@@ -544,7 +544,7 @@ def receiver_cancelled_session(hook_sleep, reset_after, kind):
     undo = vsess.install(loop, smsc)
     obs = {'outcomes': [], 'resp_pdus': [], 'fed': []}
     try:
-        esme, hook = vsess.quiet_esme(enquire_link_interval=50.0, socket_timeout=100.0, correlator=SimpleCorrelator('crc', max_ttl_response=1.0),
+        esme, hook = vsess.quiet_esme(enquire_link_interval=50.0, socket_timeout=socket_timeout, correlator=SimpleCorrelator('crc', max_ttl_response=1.0),
                                       retry_timer=SimpleExponentialBackoff(200, 2))
         count = [0]
 
